@@ -13,7 +13,7 @@ no other glyph changes, no nested lookups): single and alternate substitution, r
 substitution, single adjustment, mark-to-base and mark-to-mark attachment -/
 def pointwise : Subtable → Bool
   | .gsub11 _ _ | .gsub12 _ _ | .gsub31 _ _ | .gsub81 _ _ _ _
-  | .gpos11 _ _ | .gpos12 _ _ | .gpos41 _ _ _ _ | .gpos61 _ _ _ _ => true
+  | .gpos11 _ _ | .gpos12 _ _ | .gpos41 _ _ _ _ _ | .gpos61 _ _ _ _ => true
   | _ => false
 
 def pointwiseLookup (lk : Lookup) : Bool := lk.subtables.all pointwise
